@@ -435,3 +435,11 @@ func CellAliases(v ssa.Value) map[ssa.Value]bool {
 	}
 	return out
 }
+
+// ConstIntOf converts a constant.Value to int64.
+func ConstIntOf(v constant.Value) (int64, bool) {
+	if v == nil || v.Kind() != constant.Int {
+		return 0, false
+	}
+	return constant.Int64Val(v)
+}
